@@ -5,7 +5,8 @@ From PV Require Import Comb.FockModel Comb.FermiModel Comb.FermiProofs
   C17.FermiRepModel C17.FermiWalkProofs C17.FermiRepProofs C17.FermiParityProofs
   C17.FermiBasisProofs C17.FermiSequenceProofs C17.FermiNumberProofs.
 From mathcomp Require ssralg seq.
-From PV Require C17.FermiDetMC C17.FermiRepDetMC C17.FermiCompoundMC C17.FermiCompoundModelMC.
+From PV Require C17.FermiDetMC C17.FermiRepDetMC C17.FermiCompoundMC C17.FermiCompoundModelMC
+  C17.FermiBlockNormMC C17.FermiNormStatement.
 Import ListNotations.
 Open Scope Z_scope.
 
@@ -88,6 +89,31 @@ Theorem C17_compound_of_unitary_is_unitary :
   @FermiCompoundModelMC.compound_rows_orthonormal R d n c Uf.
 Proof. exact FermiCompoundModelMC.unitary_compound_unitary. Qed.
 Print Assumptions C17_compound_of_unitary_is_unitary.
+
+(* per sector block: for a unitary U the n-th compound block  y_f = sum_h lminor U f h * x_h
+   (f, h increasing index functions 'I_n -> 'I_d) preserves  sum_f y_f * conj y_f,  for every
+   amplitude function x, all d and n *)
+Theorem C17_unitary_block_preserves_norm :
+  forall (R : ssralg.GRing.ComRing.type) (d n : nat) (c : FermiCompoundModelMC.conj_type R)
+         (Uf : Z -> Z -> ssralg.GRing.ComRing.sort R),
+  @FermiCompoundModelMC.is_unitary_fn R d c Uf ->
+  @FermiBlockNormMC.block_norm_preserved R d n c Uf.
+Proof. exact FermiBlockNormMC.unitary_block_norm_preserved. Qed.
+Print Assumptions C17_unitary_block_preserves_norm.
+
+(* matrix form: M M^dagger = 1 implies sum (M x)_i conj (M x)_i = sum x_i conj x_i *)
+Theorem C17_block_preserves_norm :
+  forall (R : ssralg.GRing.ComRing.type) (c : FermiCompoundModelMC.conj_type R) (m : nat),
+  @FermiBlockNormMC.block_norm_mx_preserved R c m.
+Proof. exact FermiBlockNormMC.block_norm_mx. Qed.
+Print Assumptions C17_block_preserves_norm.
+
+(* NOT proved - full-strength statement kept as a Prop: one passive gate of the model with a
+   unitary matrix preserves sum |amplitude|^2 (the lift of the block theorem through the
+   gather/scatter of the index list) *)
+Definition C17_passive_norm_preserved_statement : Prop :=
+  forall (A : Type) (zero one : A) (add mul sub : A -> A -> A) (opp conj : A -> A),
+  FermiNormStatement.passive_norm_preserved_statement A zero one add mul sub opp conj.
 
 (* Ising-XX (entries j and 3-j of a table row) and two-mode squeezing (entries 0 and 3) connect
    vectors that agree outside the two gate modes and are complementary on them *)
